@@ -1388,7 +1388,10 @@ fn assignment_stmt_to_asg_stmt(
         if symbol_ok && expr_type != &symbol_type {
             if expr_type.equal_up_to_dims(&symbol_type) {
                 context.insert_error(IncompatibleDimensionError, assignment_stmt);
-            } else if let asg::Expr::Literal(asg::Literal::Int(intlit)) = expr.expression() {
+            } else if let asg::Expr::Literal(literal @ asg::Literal::Int(intlit)) =
+                expr.expression()
+            {
+                let castable = can_cast_literal(&symbol_type, expr_type, literal);
                 // Cast positive integer literal to UInt
                 if matches!(symbol_type, Type::UInt(..)) {
                     if *intlit.sign() {
@@ -1402,6 +1405,12 @@ fn assignment_stmt_to_asg_stmt(
                         // In Julia, `x::UInt = -1` throws `InexactError`.
                         context.insert_error(CastError, assignment_stmt);
                     }
+                } else if castable {
+                    // As in a declaration, an integer literal is converted to the type of the
+                    // variable, if this is allowed.
+                    expr = asg::Cast::new(expr, symbol_type).to_texpr()
+                } else {
+                    context.insert_error(IncompatibleTypesError, assignment_stmt);
                 }
             } else {
                 let promoted_type = types::promote_types(&symbol_type, expr_type);
